@@ -4,7 +4,8 @@ C08 - sum and product mixtures equal the stated combination of their parts.
 Space (E1, programs x inputs): ALL ordered assignments of a component alphabet to the expression shapes
 A+B, A*B, A+B+C, A*B*C, A+B*C, A*B+C (and the 4-leaf shapes A+B+C+D, A*B+C*D on a smaller alphabet).  One
 case = one program; inside it EVERY combination of at most D dimensions off default is executed:
-per part {non-default values, size dispersity or (2-D) orientation jitter, magnetism, intensity exactly zero}, and globally {2-D data,
+per part {non-default values, size dispersity or (2-D) orientation jitter, magnetism or zero amplitude with
+non-zero magnetic angles, intensity exactly zero, distribution wholly outside the limits (empty mesh)}, and globally {2-D data,
 non-default spin state}.  Because every ordered assignment and every per-part deviation is enumerated, every
 permutation of a multiset of parts (with permuted settings) is in the space and is judged against the same
 commutative oracle: order independence is decided by construction.
@@ -19,7 +20,7 @@ import itertools
 
 import numpy as np
 
-from .. import build
+from .. import build, refmodel
 from ..engine import R, HarnessError
 from ..space import deviations
 
@@ -31,7 +32,8 @@ TECHNIQUE = ("exhaustive enumeration of all model expressions over a component a
              "shapes) x deviation-bounded per-part configurations; each mixture value is re-derived from its leaves "
              "evaluated alone, mapped positionally through info.composition")
 RULE = ("every ordered assignment of components to every expression shape; per program every combination of <=D "
-        "dimensions off default (per part: values, dispersity, magnetism, zero intensity; global: 2-D, spin state); "
+        "dimensions off default (per part: values, dispersity, magnetism / M0=0 with angles, zero intensity, empty mesh; "
+        "global: 2-D, spin state); "
         "non-trivial = >=2 parts whose intensities alone are non-constant in q and pairwise distinct")
 ASSUMPTIONS = [
     "each leaf evaluated alone by call_kernel (plain models: C01/C06; P@S leaves: C07) is the reference I_k",
@@ -277,9 +279,11 @@ def run_case(case, ctx):
             # size dispersity; for oriented parts also jitter (applied for 2-D data only, where it is defined)
             dims.append(("pd:%d" % k, None, pd[:1] + (["theta"] if oriented else [])))
         if slds and not is_py(name):
-            dims.append(("mag:%d" % k, 0, [1]))
+            dims.append(("mag:%d" % k, 0, [1, 2]))      # 2 = zero amplitude with non-zero angles: not magnetic
         if len(slds) >= 2:
             dims.append(("zero:%d" % k, 0, [1]))
+        if pd:
+            dims.append(("empty:%d" % k, 0, [1]))       # distribution wholly outside the limits: empty mesh
     dims.append(("dim", "1d", ["2d"]))
     if any(leaf_dims(lf["leaf"])[0] for lf in leaves):
         dims.append(("spin", 0, [1]))
@@ -295,7 +299,7 @@ def run_case(case, ctx):
         pars.update(sum_scales)
         spin = dict(SPIN) if cfg.get("spin") else {}
         pars.update(spin)
-        own_all, magnetic_leaf, sld_leaf, zero_leaf = [], [], [], []
+        own_all, magnetic_leaf, sld_leaf, zero_leaf, empty_leaf, zeroamp_leaf = [], [], [], [], [], []
         for lf in leaves:
             k, name = lf["k"], lf["leaf"]
             slds, pd = leaf_dims(name)
@@ -315,7 +319,21 @@ def run_case(case, ctx):
                 for s in slds:
                     own[s] = solvent
                 zero_leaf.append(k)
-            if cfg.get("mag:%d" % k):
+            if cfg.get("empty:%d" % k):
+                nm = pd[0]
+                par = [p for p in build.info(name).parameters.call_parameters if p.name == nm][0]
+                lo = par.limits[0]
+                centre = (lo if np.isfinite(lo) else 0.0) - abs(own[nm]) - 1.0
+                x, _ = refmodel.par_dist(par, "gaussian", 3, 0.1, 2.0, centre)
+                if len(x) != 0 or not np.isfinite(lo):
+                    raise HarnessError("cannot empty the mesh of %s.%s" % (name, nm))
+                own.update({nm: centre, nm + "_pd": 0.1, nm + "_pd_n": 3, nm + "_pd_type": "gaussian",
+                            nm + "_pd_nsigma": 2.0})
+                empty_leaf.append(k)
+            if cfg.get("mag:%d" % k) == 2:
+                own.update({slds[0] + "_M0": 0.0, slds[0] + "_mtheta": 40.0, slds[0] + "_mphi": 70.0})
+                zeroamp_leaf.append(k)
+            elif cfg.get("mag:%d" % k):
                 m0, mt, mp = MAG[k]
                 own.update({slds[0] + "_M0": m0, slds[0] + "_mtheta": mt, slds[0] + "_mphi": mp})
                 magnetic_leaf.append(k)
@@ -369,6 +387,15 @@ def run_case(case, ctx):
                     br.append("zero-part-in-product")
         if magnetic_leaf:
             br.append("magnetic-part" + ("-2d" if dim == "2d" else "-1d"))
+        if zeroamp_leaf:
+            br.append("zero-amplitude-angles")
+            if magnetic_leaf and dim == "2d":
+                br.append("zero-amplitude-angles-beside-magnetic-part-2d")
+        for k in empty_leaf:
+            if np.all(leaf_vals[k] == 0.0):
+                br.append("empty-mesh-part")
+                if any(np.any(leaf_vals[j] != 0.0) for j in range(nleaf) if j != k):
+                    br.append("empty-mesh-part-beside-nonzero-part")
         if any(np.all(np.isnan(v)) for v in leaf_vals):
             br.append("nan-part")
         nonconst = [k for k in range(nleaf) if np.all(np.isfinite(leaf_vals[k])) and np.ptp(leaf_vals[k]) > 0]
@@ -394,6 +421,10 @@ def run_case(case, ctx):
                  "product" if root["op"] == "*" else "nested"
         if any(b == "zero-part-in-product" for b in br):
             clause = "product-zero-part"
+        elif empty_leaf:
+            clause = "empty-mesh-part"
+        elif zeroamp_leaf and magnetic_leaf and dim == "2d":
+            clause = "zero-amplitude-part-treated-magnetic"
         elif cfg.get("spin") and dim == "2d" and magnetic_leaf and set(sld_leaf) - set(magnetic_leaf):
             # does the difference come ONLY from non-magnetic SLD parts being sent through the magnetic kernel?
             alt = []
@@ -432,3 +463,8 @@ def finish(ctx, report):
     report.require("zero-part-in-product", 50, "exactly-zero part inside a product")
     report.require("magnetic-part-2d", 50, "magnetic part, 2-D")
     report.require("part-jitter-2d", 20, "orientation dispersity of an oriented part, 2-D")
+    report.require("empty-mesh-part", 100, "a part whose distribution lies wholly outside the limits (contributes exactly 0)")
+    report.require("empty-mesh-part-beside-nonzero-part", 100, "empty-mesh part next to parts that still contribute")
+    report.require("zero-amplitude-angles", 100, "part with M0 = 0 but non-zero magnetic angles")
+    report.require("zero-amplitude-angles-beside-magnetic-part-2d", 20,
+                   "M0 = 0 / non-zero angles part next to a magnetic part, 2-D")
